@@ -377,6 +377,8 @@ fn run_config(c: &Config) -> Vec<(String, String)> {
             }
         }
         _ => {
+            // a tree on which RIP stalls would otherwise never come back
+            ax.set_max_instructions(64);
             if let Err(p) = crate::emu::execute(&mut ax) {
                 v(&format!("hooks|panic@{}", p.tag()), format!("{ctx}: follow-up execute panicked"));
             }
